@@ -1,5 +1,7 @@
 /-
-  Spec for C04 (and users): locations as sets of bases on a line or ring.
+  Spec for C04 (and its users): locations as *sets of bases* on a line or a ring.
+  Everything here is executable, so the definitions the theorems talk about are also evaluated
+  on the implementation's outputs by the driver.
 -/
 import ASV.Model.Loc
 namespace ASV
@@ -11,5 +13,117 @@ def lineGap (a b : Part) : Int :=
 
 /-- two simple parts share a base -/
 def Part.SharesBase (a b : Part) : Prop := ∃ i : Int, a.mem i = true ∧ b.mem i = true
+
+/-- two locations share a base -/
+def Loc.SharesBase (a b : Loc) : Prop := ∃ i : Int, a.mem i = true ∧ b.mem i = true
+
+/-! ### bases strictly between two positions -/
+
+/-- number of bases strictly between positions `i ≠ j` on a line -/
+def lineBetween (i j : Int) : Int := iabs (i - j) - 1
+/-- … on a ring of length `L`, the shorter way round -/
+def ringBetween (L i j : Int) : Int := min (iabs (i - j)) (L - iabs (i - j)) - 1
+/-- `L = 0` means a line -/
+def between (L i j : Int) : Int := if L = 0 then lineBetween i j else ringBetween L i j
+
+/-- `d` is the distance of the base sets `a`, `b`: 0 if they share a base, else the least number of
+    bases strictly between a base of `a` and a base of `b` (attained, and a lower bound) -/
+def IsDist (L : Int) (a b : Loc) (d : Int) : Prop :=
+  (a.SharesBase b ∧ d = 0) ∨
+  (¬ a.SharesBase b ∧ (∃ i j, a.mem i = true ∧ b.mem j = true ∧ between L i j = d) ∧
+    ∀ i j, a.mem i = true → b.mem j = true → d ≤ between L i j)
+
+/-- closed form for two disjoint non-empty parts inside `[0, L]` -/
+def specPartDist (L : Int) (p q : Part) : Int :=
+  if L = 0 then lineGap p q
+  else if p.hi ≤ q.lo then min (q.lo - p.hi) (p.lo + L - q.hi)
+  else if q.hi ≤ p.lo then min (p.lo - q.hi) (q.lo + L - p.hi)
+  else 0
+
+/-- executable distance of two locations read as sets of bases -/
+def specDist (L : Int) (a b : Loc) : Int :=
+  minList (a.parts.flatMap fun p => b.parts.map fun q => specPartDist L p q)
+
+/-- executable "share a base": if two intervals meet, the larger of their starts lies in both -/
+def sharesPts (a b : Loc) : Bool :=
+  (a.parts.map (·.lo) ++ b.parts.map (·.lo)).any fun i => a.mem i && b.mem i
+
+/-- the distance of two locations read as sets of bases: 0 when they share a base -/
+def specDistFull (L : Int) (a b : Loc) : Int := if sharesPts a b then 0 else specDist L a b
+
+/-! ### canonical form of a set of bases: sorted, disjoint, non-adjacent, non-empty intervals -/
+
+abbrev Iv := Int × Int
+
+def insertIv (x : Iv) : List Iv → List Iv
+  | [] => [x]
+  | y :: ys => if x.1 ≤ y.1 then x :: y :: ys else y :: insertIv x ys
+
+def sortIvs (l : List Iv) : List Iv := l.foldr insertIv []
+
+/-- merge a sorted list of non-empty intervals -/
+def mergeSorted : List Iv → List Iv
+  | [] => []
+  | [x] => [x]
+  | x :: y :: rest =>
+    if y.1 ≤ x.2 then mergeSorted ((x.1, max x.2 y.2) :: rest)
+    else x :: mergeSorted (y :: rest)
+termination_by l => l.length
+
+def canonIvs (l : List Iv) : List Iv := mergeSorted (sortIvs (l.filter fun x => x.1 < x.2))
+
+def canon (ps : List Part) : List Iv := canonIvs (ps.map fun p => (p.lo, p.hi))
+
+def Loc.canon (l : Loc) : List Iv := ASV.canon l.parts
+
+def ivsMem (l : List Iv) (i : Int) : Bool := l.any fun x => decide (x.1 ≤ i) && decide (i < x.2)
+def ivsLen (l : List Iv) : Int := (l.map fun x => x.2 - x.1).sum
+
+/-- rotate an interval inside `[0, L]` by `k` (split at the origin when needed) -/
+def rotateIv (L k : Int) (x : Iv) : List Iv :=
+  let s := (x.1 + k) % L
+  let e := s + (x.2 - x.1)
+  if e ≤ L then [(s, e)] else [(s, L), (0, e - L)]
+
+/-- reduce an interval that may stick out of `[0, L)` on either side to intervals inside it -/
+def wrapIv (L : Int) (x : Iv) : List Iv :=
+  if x.2 - x.1 ≥ L then [(0, L)]
+  else rotateIv L 0 (x.1 % L, x.1 % L + (x.2 - x.1))
+
+/-! ### well-formedness of spans ("areas") -/
+
+/-- parts non-empty, inside `[0, L]`, mutually disjoint, at most two, and then the first ends at
+    `L` and the second starts at the origin (`L = 0`: linear, a single part) -/
+def areaWF (L : Int) (len : Int) (l : Loc) : Bool :=
+  match l.parts with
+  | [p] => decide (0 ≤ p.lo) && decide (p.lo < p.hi) && decide (p.hi ≤ len)
+  | [p, q] => decide (L ≠ 0) && decide (0 ≤ p.lo) && decide (p.lo < p.hi) && decide (p.hi = L)
+                && decide (q.lo = 0) && decide (q.lo < q.hi) && decide (q.hi ≤ p.lo)
+  | _ => false
+
+/-- every part non-empty and inside the record -/
+def partsInside (len : Int) (l : Loc) : Bool :=
+  l.parts.all fun p => decide (0 ≤ p.lo) && decide (p.lo < p.hi) && decide (p.hi ≤ len)
+
+/-- parts mutually disjoint -/
+def partsDisjoint : List Part → Bool
+  | [] => true
+  | p :: ps => ps.all (fun q => !partsOverlap p q) && partsDisjoint ps
+
+/-! ### shortest covering arc on a ring -/
+
+/-- gaps between consecutive canonical intervals going round the ring (incl. the one over the origin) -/
+def ringGaps (L : Int) (c : List Iv) : List Int :=
+  match c with
+  | [] => []
+  | first :: _ =>
+    let rec go : List Iv → List Int
+      | [] => []
+      | [x] => [first.1 + L - x.2]
+      | x :: y :: rest => (y.1 - x.2) :: go (y :: rest)
+    go c
+
+/-- length of the shortest arc covering all bases of the canonical set `c` -/
+def shortestArc (L : Int) (c : List Iv) : Int := L - maxList (ringGaps L c)
 
 end ASV
